@@ -43,11 +43,87 @@ static int ent_n = 0, ent_pos = 0;
 static int step_fails(void);
 #endif
 
+/* ---- a second operation in progress at the same time (re-entry) ----
+ * The documented interface keeps nothing between calls: everything an operation needs lives in
+ * its arguments and its own locals, so two operations may be under way at once (two parties in
+ * two threads).  The single-threaded equivalent: while the OUTER operation of a case waits for
+ * its nest_at-th entropy read, this entropy source (which stands for the application's
+ * crypto_entropy_read) performs a complete crypto_dh_generate_pub for ANOTHER private value and
+ * compares it with what the same call returned when it ran alone, before the outer operation
+ * began.  Then the outer operation goes on and its result is compared with the model as always.
+ * Whether and where this happens is a function of the case text (nest_prepare). */
+static int ent_reads = 0;	/* reads made by the outer operation so far */
+static int ent_depth = 0;	/* > 0: inside the nested operation */
+static int nest_at = -1;	/* the outer read (from 0) during which the other operation runs */
+static int nest_bad = 0;
+static int nest_rc;
+static uint8_t nest_priv[CRYPTO_DH_PRIVLEN], nest_blind[32], nest_expect[CRYPTO_DH_PUBLEN];
+
+static int
+nest_run(uint8_t out[CRYPTO_DH_PUBLEN])
+{
+	int rc;
+
+	ent_depth++;
+	rc = crypto_dh_generate_pub(out, nest_priv);
+	ent_depth--;
+	return (rc);
+}
+
+static void
+nest_prepare(uint32_t h, int nreads)
+{
+	size_t i;
+
+	nest_at = -1; nest_bad = 0;
+	if (nreads <= 0 || (h & 0x18) == 0)	/* a quarter of the cases stay as they were */
+		return;
+	for (i = 0; i < 32; i++) {
+		h = h * 1103515245u + 12345u; nest_priv[i] = (uint8_t)(h >> 16);
+		h = h * 1103515245u + 12345u; nest_blind[i] = (uint8_t)(h >> 16);
+	}
+	if ((h & 0x300) == 0)
+		memset(nest_priv, (h & 0x400) ? 0xff : 0, 32);
+	drv_junk(nest_expect, CRYPTO_DH_PUBLEN);
+	nest_rc = nest_run(nest_expect);	/* alone */
+	/* crypto_dh_generate reads twice (private value, then blinding): mostly the second */
+	nest_at = (nreads > 1 && ((h >> 12) & 3)) ? 1 : 0;
+}
+
+/* precedes the result of the outer operation on its output line */
+static void
+nest_report(void)
+{
+	if (nest_bad)
+		printf("!other-operation-disturbed ");
+}
+
+static void
+nest_now(void)
+{
+	uint8_t * out = malloc(CRYPTO_DH_PUBLEN);
+	int rc;
+
+	drv_junk(out, CRYPTO_DH_PUBLEN);
+	rc = nest_run(out);
+	if (rc != nest_rc || (rc == 0 && memcmp(out, nest_expect, CRYPTO_DH_PUBLEN) != 0))
+		nest_bad = 1;
+	drv_scribble_free(out, CRYPTO_DH_PUBLEN);
+}
+
 int
 crypto_entropy_read(uint8_t * buf, size_t buflen)
 {
 	size_t i;
 
+	if (ent_depth > 0) {
+		/* the nested operation's own blinding */
+		for (i = 0; i < buflen; i++)
+			buf[i] = nest_blind[i % 32];
+		return (0);
+	}
+	if (ent_reads++ == nest_at)
+		nest_now();
 #ifdef DRV_DH_WRAP
 	if (step_fails())
 		return (-1);
@@ -68,6 +144,7 @@ static void
 ent_reset(void)
 {
 	ent_n = ent_pos = 0;
+	ent_reads = 0;
 }
 
 static void
@@ -405,10 +482,13 @@ main(int argc, char ** argv)
 	wipe_warmup();
 #endif
 	while ((line = drv_getline()) != NULL) {
+		uint32_t h = drv_case_hash(line);
 		int n = drv_split(line, tok, 8);
 		size_t l;
 
 		ent_reset();
+		nest_prepare(h, n < 1 ? 0 : strcmp(tok[0], "generate") == 0 ? 2 :
+		    (strcmp(tok[0], "genpub") == 0 || strcmp(tok[0], "compute") == 0) ? 1 : 0);
 		/* The process uses OpenSSL for other things too: on about half of the plain cases (chosen
 		 * by the case text, so that a replayed case behaves alike) an earlier, unrelated OpenSSL
 		 * call has failed and was handled through its return value, which leaves an entry on the
@@ -422,6 +502,7 @@ main(int argc, char ** argv)
 			ent_push(tok[2]);
 			int rc = crypto_dh_generate_pub(pub, priv);
 			drv_scribble_free(priv, l);	/* arguments are the caller's again */
+			nest_report();
 			if (rc == 0) {
 				printf("ok "); drv_puthex(pub, CRYPTO_DH_PUBLEN); printf("\n");
 			} else
@@ -435,6 +516,7 @@ main(int argc, char ** argv)
 			ent_push(tok[3]);
 			rc = crypto_dh_compute(pub, priv, key);
 			drv_scribble_free(pub, lp); drv_scribble_free(priv, l);
+			nest_report();
 			if (rc == 0) {
 				printf("ok "); drv_puthex(key, CRYPTO_DH_KEYLEN); printf("\n");
 			} else
@@ -443,8 +525,11 @@ main(int argc, char ** argv)
 		} else if (n == 3 && strcmp(tok[0], "generate") == 0) {
 			uint8_t * pub = outbuf(CRYPTO_DH_PUBLEN);
 			uint8_t * priv = outbuf(CRYPTO_DH_PRIVLEN);
+			int rc;
 			ent_push(tok[1]); ent_push(tok[2]);
-			if (crypto_dh_generate(pub, priv) == 0) {
+			rc = crypto_dh_generate(pub, priv);
+			nest_report();
+			if (rc == 0) {
 				printf("ok "); drv_puthex(pub, CRYPTO_DH_PUBLEN);
 				printf(" "); drv_puthex(priv, CRYPTO_DH_PRIVLEN); printf("\n");
 			} else
